@@ -248,6 +248,9 @@ async fn dial_happy_eyeballs(
     url: &Url,
     prefer_ipv6: bool,
 ) -> Result<TcpStream, DialError> {
+    // Inside this function `TcpStream::connect` goes through the simulator's connector.
+    #[cfg(iroh_verif)]
+    use self::verif::SimTcpStream as TcpStream;
     let port = url_port(url).ok_or_else(|| e!(DialError::InvalidTargetPort))?;
 
     // Stream of resolved addresses.
@@ -371,6 +374,66 @@ fn url_port(url: &Url) -> Option<u16> {
         "http" | "ws" => Some(80),
         "https" | "wss" => Some(443),
         _ => None,
+    }
+}
+
+/// Verification wrappers (cfg(iroh_verif) only).
+#[cfg(iroh_verif)]
+pub mod verif {
+    use std::{io, net::SocketAddr};
+
+    use iroh_dns::dns::DnsResolver;
+    use url::Url;
+
+    use super::DialError;
+
+    /// Runs the private `dial_happy_eyeballs`.
+    pub async fn dial(
+        dns_resolver: &DnsResolver,
+        url: &Url,
+        prefer_ipv6: bool,
+    ) -> Result<tokio::net::TcpStream, DialError> {
+        super::dial_happy_eyeballs(dns_resolver, url, prefer_ipv6).await
+    }
+
+    thread_local! {
+        static PEERS: std::cell::RefCell<Vec<std::net::TcpStream>> = const { std::cell::RefCell::new(Vec::new()) };
+    }
+
+    /// Connector standing in for `tokio::net::TcpStream` inside `dial_happy_eyeballs`.
+    #[derive(Debug)]
+    pub struct SimTcpStream;
+
+    impl SimTcpStream {
+        /// Asks the simulator what this connection attempt does: `ok:<ms>`, `err:<ms>` or `hang`.
+        /// A successful attempt yields a real, connected loopback stream (only its identity is
+        /// used); without a simulator this is the real `TcpStream::connect`.
+        pub async fn connect(addr: SocketAddr) -> io::Result<tokio::net::TcpStream> {
+            let Some(plan) = iroh_base::verif::stub("relay.dial.connect", &addr.to_string()) else {
+                return tokio::net::TcpStream::connect(addr).await;
+            };
+            let (kind, ms) = plan.split_once(':').unwrap_or((plan.as_str(), "0"));
+            let ms: u64 = ms.parse().unwrap_or(0);
+            match kind {
+                "hang" => std::future::pending().await,
+                "err" => {
+                    n0_future::time::sleep(std::time::Duration::from_millis(ms)).await;
+                    Err(io::Error::new(io::ErrorKind::ConnectionRefused, "sim: refused"))
+                }
+                _ => {
+                    n0_future::time::sleep(std::time::Duration::from_millis(ms)).await;
+                    let listener = std::net::TcpListener::bind("127.0.0.1:0")?;
+                    let stream = std::net::TcpStream::connect(listener.local_addr()?)?;
+                    let (peer, _) = listener.accept()?;
+                    // keep the accepting end open for as long as the calling thread lives
+                    PEERS.with(|p| p.borrow_mut().push(peer));
+                    stream.set_nonblocking(true)?;
+                    let port = stream.local_addr()?.port();
+                    iroh_base::verif::event("relay.dial.connected", || format!("{addr} {port}"));
+                    tokio::net::TcpStream::from_std(stream)
+                }
+            }
+        }
     }
 }
 
